@@ -2,6 +2,7 @@ package main
 
 import (
 	"fmt"
+	"go/types"
 	"os"
 	"runtime"
 	"sort"
@@ -152,6 +153,10 @@ func exploreOne(prog *Program, spec feSpec, multi bool, workers int, noRef bool,
 	}
 	m.in.precisePrev = len(noEvents) > 0 && noEvents[0]
 	m.in.buildKinds = m.in.precisePrev
+	if exploreMirror != nil && hasNumberField(m) {
+		m.in.mirror = true
+		m.in.mirrorFns = exploreMirror
+	}
 	for f := range m.in.tracked {
 		res.tracked = append(res.tracked, f)
 	}
@@ -589,4 +594,50 @@ func sweepSize() int {
 		return v
 	}
 	return 120
+}
+
+// hasNumberField: the front-end accumulates numbers in a gen.Number field (the validator does not).
+func hasNumberField(m *Machine) bool {
+	st, ok := m.recvType.Underlying().(*types.Struct)
+	if !ok {
+		return false
+	}
+	for i := 0; i < st.NumFields(); i++ {
+		if n, ok := st.Field(i).Type().(*types.Named); ok && n.Obj().Name() == "Number" && n.Obj().Pkg() != nil && strings.HasSuffix(n.Obj().Pkg().Path(), "/gen") {
+			return true
+		}
+	}
+	return false
+}
+
+// reportKinds emits the disagreements of the given kinds under another rule name
+// (the exploration's obligations were already counted by applyParseResults).
+func reportKinds(rep *Report, results []feResult, kinds map[string]bool, rule string) {
+	for _, r := range results {
+		if r.err != nil {
+			continue
+		}
+		var keys []string
+		for k := range r.dis {
+			keys = append(keys, k)
+		}
+		sort.Strings(keys)
+		n := 0
+		for _, k := range keys {
+			d := r.dis[k]
+			if !kinds[d.Kind] {
+				continue
+			}
+			n++
+			key := k
+			if r.multi {
+				key = strings.Replace(k, r.name+":", r.name+"[multi]:", 1)
+			}
+			rep.Violate(Finding{Rule: rule + "/" + d.Kind, Key: key, Pos: d.Pos, Msg: d.Detail,
+				Witness: map[string]any{"input": d.Witness, "machine_state": d.XState, "reference_state": d.YState, "mode": d.Mode, "byte": d.Byte, "multi_document": r.multi}})
+		}
+		if n == 0 {
+			rep.Discharge(rule, r.label(), "", "no step of the explored product violates the rule")
+		}
+	}
 }
